@@ -100,7 +100,9 @@ func (c *connector) Deploy(ctx context.Context, image string) (deployer.Plugin, 
 		Log("deploy-fail", image, "", 0, err.Error(), nil)
 		return nil, err
 	}
-	if st.DeployMS > 0 && st.Deploy != DeployHang {
+	if st.DeployMS > 0 && st.DeployIgnoreCtx && st.Deploy != DeployHang {
+		vrt.Sleep("env/deploy.sleep", time.Duration(st.DeployMS)*time.Millisecond)
+	} else if st.DeployMS > 0 && st.Deploy != DeployHang {
 		tm := vrt.After("env/deploy.timer", time.Duration(st.DeployMS)*time.Millisecond)
 		switch vrt.Select("env/deploy.wait", false, vrt.R(tm), vrt.R(ctx.Done())) {
 		case 0:
